@@ -35,6 +35,23 @@ var _contractRE = regexp.MustCompile(
 	fmt.Sprintf("^\\s*//\\s*(?:\\s*%s\\s*\\(\\s*((?:%s)(?:\\s*,\\s*(?:%s))*)\\s*->\\s*((?:%s)(?:\\s*,\\s*(?:%s))*)\\s*\\)\\s*)+$",
 		_contractKeyword, _contractValKeyword, _contractValKeyword, _contractValKeyword, _contractValKeyword))
 
+// _nilabilityAnnotationRE matches an explicit `nilable(...)` or `nonnil(...)` annotation.
+var _nilabilityAnnotationRE = regexp.MustCompile(`\b(?:nilable|nonnil)\s*\(`)
+
+// hasNilabilityAnnotation returns whether the comment group carries explicit nilability
+// annotations for the parameters or results of the function.
+func hasNilabilityAnnotation(doc *ast.CommentGroup) bool {
+	if doc == nil {
+		return false
+	}
+	for _, lineComment := range doc.List {
+		if _nilabilityAnnotationRE.MatchString(lineComment.Text) {
+			return true
+		}
+	}
+	return false
+}
+
 // parseContracts parses a slice of function contracts from a singe comment group. If no contract
 // is found from the comment group, an empty slice is returned.
 func parseContracts(doc *ast.CommentGroup) Contracts {
